@@ -1,4 +1,5 @@
 import NadaVerif.Runtime.Timer
+import NadaVerif.Runtime.Helpers
 import Lean.Data.Json
 import NadaVerif.Scalar
 import NadaVerif.Py.Int
@@ -125,6 +126,27 @@ def handle (j : Json) : Json :=
                       ("running", Json.arr (r.2.running.map fun n => Json.str (nameStr n)).toArray)]
         | none => Json.mkObj [("error", Json.str "bad program")])
      | _ => Json.mkObj [("error", Json.str "bad timers request")])
+  | .ok "helpers" =>
+    -- a history of compilations and edits: per compilation the helper modules whose files are executed
+    let stepOf (j : Json) : Option (List (String × String × Nat) × String × List String) :=
+      match j.getObjValAs? (Array Json) "disk", j.getObjValAs? String "dir", j.getObjValAs? (Array String) "names" with
+      | .ok d, .ok dir, .ok ns =>
+        (d.toList.mapM fun (e : Json) => match e.getArrVal? 0, e.getArrVal? 1, e.getArrVal? 2 with
+          | .ok a, .ok b, .ok c => (match a.getStr?, b.getStr?, c.getNat? with | .ok a, .ok b, .ok c => some (a, b, c) | _, _, _ => none)
+          | _, _, _ => none).map fun disk => (disk, dir, ns.toList)
+      | _, _, _ => none
+    (match j.getObjValAs? (Array Json) "history" with
+     | .ok h =>
+       (match h.toList.mapM stepOf with
+        | some steps =>
+          let run := steps.foldl (fun (acc : Runtime.Registry × List (List String)) (st : List (String × String × Nat) × String × List String) =>
+            let disk : Runtime.Disk := fun d n => (st.1.find? fun e => e.1 == d && e.2.1 == n).map (·.2.2)
+            let r := Runtime.compileFrom disk st.2.1 st.2.2 acc.1
+            (r.1, acc.2 ++ [r.2])) ([], [])
+          Json.mkObj [("executed", Json.arr (run.2.map fun l => Json.arr (l.map Json.str).toArray).toArray),
+                      ("loaded", Json.arr (run.1.map fun h => Json.arr #[Json.str h.name, Json.str h.owner]).toArray)]
+        | none => Json.mkObj [("error", Json.str "bad step")])
+     | _ => Json.mkObj [("error", Json.str "bad helpers request")])
   | .ok "c15cells" => Json.mkObj [
       ("cellAgrees", failingRows C15.cellAgrees),
       ("checkerSound", Json.arr ((checkerTable.filter (fun r => !C15.checkerCellSound r || !C15.checkerCellProgress r)).map fun r =>
